@@ -236,7 +236,10 @@ pub fn compare_traces(pred: &Pred, act: &Actual, top_ok_and_events_agree: Option
             ));
         }
         if p.code_tag != a.code_tag {
-            return Some(Disc::new(&["C12", "C11"], "trace:code-tag", format!("trace position {} ({}): served by code tag {} but the contract's current code has tag {}", i, entry_brief(p), a.code_tag, p.code_tag)));
+            // after a failure earlier in the same call: a rolled-back migration / instantiation that still
+            // decides which code serves the address has left a trace (C02)
+            let after_failure = pred.fail_before.get(i).copied().unwrap_or(0) > 0;
+            return Some(Disc::new(if after_failure { &["C12", "C11", "C02"] } else { &["C12", "C11"] }, "trace:code-tag", format!("trace position {} ({}): served by code tag {} but the contract's current code has tag {}", i, entry_brief(p), a.code_tag, p.code_tag)));
         }
         if p.reply != a.reply {
             let (pr, ar) = (p.reply.as_ref(), a.reply.as_ref());
